@@ -1,8 +1,8 @@
 //! Exports a builder [`Builder`].
 
 use crate::{
-    AddressHeaderTag, ConsoleHeaderTag, EfiBootServiceHeaderTag, EntryAddressHeaderTag,
-    EntryEfi32HeaderTag, EntryEfi64HeaderTag, FramebufferHeaderTag, HeaderTagISA,
+    AddressHeaderTag, ConsoleHeaderTag, EfiBootServiceHeaderTag, EndHeaderTag,
+    EntryAddressHeaderTag, EntryEfi32HeaderTag, EntryEfi64HeaderTag, FramebufferHeaderTag, HeaderTagISA,
     InformationRequestHeaderTag, ModuleAlignHeaderTag, Multiboot2BasicHeader, RelocatableHeaderTag,
 };
 use alloc::boxed::Box;
@@ -155,6 +155,9 @@ impl Builder {
             byte_refs.push(tag.as_bytes().as_ref());
         }
         // TODO add support for custom tags once someone requests it.
+        // The tags are terminated by an end tag.
+        let end_tag = EndHeaderTag::new();
+        byte_refs.push(end_tag.as_bytes().as_ref());
         new_boxed(header, byte_refs.as_slice())
     }
 }
